@@ -35,6 +35,7 @@ EVEN = 'even:add_points_even'
 KNEES = 'even:add_points_even_knees'
 
 META = {
+    'refill': True,      # cases presented in a reused buffer are followed by a refill of that buffer (runner)
     'rule': ('curves: gen.curve families (non-flat ones; flat x or y is out-of-domain) in C/F/strided-view/int64 '
              'layouts, n <= 80 (quick) and up to 3000 (thorough), plus power-of-two integer grids on which '
              'w == 2*tx and height == ty occur exactly; reductions from rdp.rdp_fixed (length 2..40, random '
@@ -326,13 +327,22 @@ def cases(rng, tier, shard, nshards):
     for _ in range(shard_count(META['curve_cases'][tier], shard, nshards)):
         r = rng.random()
         grid = None
+        dec = False
         if r < 0.15:
             pts, grid = grid_curve(rng)
             fam = 'grid'
-        elif r < 0.17:
+        elif r < 0.27:
+            # decimal grid: x = 0..N with N in {10, 20, 50, 100} and round decimal thresholds, so that w/(2*tx) lands
+            # on (the float neighbourhood of) an integer - the exact arrangement of the float expression matters
+            N = int(pick(rng, [10, 20, 50, 100]))
+            x = np.arange(N + 1, dtype=float)
+            y = np.sort(rng.integers(0, 41, N + 1))[::-1].astype(float) / (1.0 if rng.random() < 0.5 else 40.0)
+            y[0], y[-1] = y.max() + 1.0, 0.0
+            pts, fam, dec = np.ascontiguousarray(np.column_stack((x, y))), 'decimal-grid', True
+        elif r < 0.29:
             pts, meta = gen.curve(rng, family='const', nmax=30)        # out-of-domain on purpose
             fam = meta['family']
-        elif tier == 'thorough' and r < 0.18:
+        elif tier == 'thorough' and r < 0.30:
             pts, meta = gen.curve(rng, family=pick(rng, FAMILIES), nmax=3000, nmin=400)
             fam = meta['family']
         elif r < 0.42:
@@ -350,7 +360,9 @@ def cases(rng, tier, shard, nshards):
             red = {'name': 'rdp', 't': gen.threshold(rng, cs), 'distance': pick(rng, DISTANCES), 'cost': cs}
         thresholds = []
         for _ in range(2):
-            if grid is not None or rng.random() < 0.2:
+            if dec:
+                thresholds.append([float(pick(rng, [0.05, 0.1, 0.025, 0.2, 0.15, 0.01])), float(pick(rng, [0.01, 0.05, 0.1, 0.025]))])
+            elif grid is not None or rng.random() < 0.2:
                 thresholds.append([float(2.0 ** -int(rng.integers(2, 8))), float(2.0 ** -int(rng.integers(1, 7)))])
             else:
                 thresholds.append([float(10.0 ** rng.uniform(-2.5, -0.3)), float(10.0 ** rng.uniform(-2.5, -0.3))])
